@@ -32,7 +32,9 @@ func runC17(c *Ctx) {
 		"(exclusive) every store, delete, map update, clear and append/copy into Owners holds the exclusive Lock (RLock suffices for loads only); " +
 		"(pairing) no function returns with mu held or with a lock state that differs between paths, and every Unlock/RUnlock releases a lock held in that mode; " +
 		"(reentry) no path acquires mu, directly or through an in-module callee on the same receiver, while it is already held (sync.RWMutex is not reentrant); " +
-		"(escape) no result of an entry point, channel send, go statement, store outside the server object or argument of an unknown callee aliases guarded memory (a *NameRecord from the map, the map, record.Owners' backing array, interior pointers) — copy into a fresh make, append onto a nil/fresh slice, slices.Clone and string conversion de-alias; and, inbound, every reference stored into guarded memory is fresh or already table-owned; " +
+		"(escape) no result of an entry point, channel send, go statement, store outside the server object or argument of an unknown callee aliases guarded memory (a *NameRecord from the map, the map, record.Owners' backing array, interior pointers) — copy into a fresh make, append onto a nil/fresh slice, slices.Clone and string conversion de-alias; and, inbound, every reference stored into guarded memory is fresh or already table-owned, " +
+		"where fresh includes the result of a declared module function (a constructor such as newNameRecord(…), up to three levels) whose summary shows that every return yields the callee's own unleaked allocation, that every reference the callee stored into it is itself fresh, and whose parameters reaching the result are judged on the caller's arguments; a constructor that publishes its result (package variable, channel, goroutine) or keeps a caller-supplied slice is a violation; a value whose provenance is not followed to an allocation or parameter is NOT DECIDED (discharged with a note); " +
+		"(lock values) bound method values of the mutex (unlock := n.mu.Unlock; defer n.lock()() with lock() returning n.mu.Unlock) are followed; a function value carrying the mutex that cannot be read makes the lock state unknown and the dependent obligations NOT DECIDED; " +
 		"(who) guarded memory is touched only by code reached from methods of NetBIOSNameServer (or by the constructor exemption). " +
 		"NOT DECIDED (needs model checking / exploration of histories and schedules): the register/release/refresh conflict matrix (unique vs group), owner de-duplication, that ReleaseName/RefreshName check the right owner, deletion of empty groups, the Status==Active filter, TTL/expiry semantics, linearizability of compound caller-side sequences, panics between Lock and an explicit Unlock, " +
 		"and whether callers mutate the bytes of a net.IP after registering it (the bytes of an owner address are not part of G; the table never writes them)."
@@ -124,6 +126,9 @@ func runC17(c *Ctx) {
 		switch o.Status {
 		case effects.OK:
 			st = report.Discharged
+		case effects.NotDecided:
+			st = report.Discharged
+			r.Note("C17 %s: %s: %s", o.Rule, construct, o.Reason)
 		case effects.Fail:
 			st = report.Finding
 		default:
@@ -194,6 +199,10 @@ func typeReaches(t types.Type, target *types.Named, seen map[types.Type]bool) bo
 	case *types.Named:
 		if u.Obj() == target.Obj() {
 			return true
+		}
+		// a named container of the module (type nameTable map[string]*NameRecord)
+		if _, isStruct := u.Underlying().(*types.Struct); !isStruct {
+			return typeReaches(u.Underlying(), target, seen)
 		}
 		return false
 	case *types.Pointer:
